@@ -35,19 +35,42 @@ def mask(w):
 # ---------------------------------------------------------------------------
 
 def twidth(design, t):
+  """t: int | ["struct", name] | ["list", n, t]"""
   if isinstance(t, int):
     return t
-  return sum(w for _, w in design["types"][t[1]])
+  if t[0] == "list":
+    return t[1] * twidth(design, t[2])
+  return sum(twidth(design, ft) for _, ft in design["types"][t[1]])
+
+
+def subobjects(design, t, steps=(), lo=0):
+  """every addressable sub-object of a value of type t: [(steps, lo, type)] - fields (first field most significant) and list
+  elements (element 0 least significant), at every depth; the root itself is not included"""
+  out = []
+  if isinstance(t, int):
+    return out
+  if t[0] == "list":
+    ew = twidth(design, t[2])
+    for i in range(t[1]):
+      st = list(steps) + [["i", i]]
+      out.append((st, lo + i * ew, t[2]))
+      out += subobjects(design, t[2], st, lo + i * ew)
+    return out
+  pos = lo + twidth(design, t)
+  for fn, ft in design["types"][t[1]]:
+    w = twidth(design, ft)
+    pos -= w
+    st = list(steps) + [["f", fn]]
+    out.append((st, pos, ft))
+    out += subobjects(design, ft, st, pos)
+  return out
 
 
 def field_range(design, t, fname):
-  """(lo, width) of a field inside the packed struct; first field most significant"""
-  fields = design["types"][t[1]]
-  pos = twidth(design, t)
-  for fn, w in fields:
-    pos -= w
-    if fn == fname:
-      return pos, w
+  """(lo, width) of a top-level field inside the packed struct; first field most significant"""
+  for st, lo, ft in subobjects(design, t):
+    if st == [["f", fname]]:
+      return lo, twidth(design, ft)
   raise KeyError(fname)
 
 
@@ -60,6 +83,7 @@ def ewidth(e):
   if k == "rd": return e[1]["w"]
   if k == "c": return e[2]
   if k == "fv": return None            # free variable (closure int constant): implicit width
+  if k == "lv": return None            # loop variable: a python int
   if k == "tv": return e[2]            # block-local temporary
   if k == "bin": return ewidth(e[2]) if ewidth(e[2]) is not None else ewidth(e[3])
   if k in ("cmp", "red"): return 1
@@ -73,7 +97,7 @@ def ewidth(e):
 def expr_refs(e, out):
   k = e[0]
   if k == "rd": out.append(e[1])
-  elif k in ("c", "fv"): pass
+  elif k in ("c", "fv", "lv"): pass
   elif k == "tv": out.append({"tmp": e[1]})
   elif k in ("bin", "cmp"): expr_refs(e[2], out); expr_refs(e[3], out)
   elif k in ("inv", "zext", "sext", "trunc"): expr_refs(e[1], out)
@@ -86,7 +110,7 @@ def expr_refs(e, out):
 
 def stmt_reads_writes(stmts, reads, writes):
   r0 = len(reads)
-  _stmt_rw(stmts, reads, writes)
+  _stmt_rw(unroll(stmts), reads, writes)
   reads[r0:] = [r for r in reads[r0:] if "tmp" not in r]       # temporaries are block-local, not signals
   return reads, writes
 
@@ -104,11 +128,63 @@ def _stmt_rw(stmts, reads, writes):
 
 
 def ref_text(r):
-  s = "s." + r["path"]
+  s = "s." + r["path"].replace("$", "")
   for st in r["steps"]:
     if st[0] == "f": s += "." + st[1]
+    elif st[0] == "i": s += f"[{st[1]}]"
+    elif st[0] == "sv": s += f"[{st[1]}*{st[2]}:{st[1]}*{st[2]}+{st[2]}]"        # loop-variable slice [i*w : i*w+w]
     else: s += f"[{st[1]}:{st[2]}]"
   return s
+
+
+def concretize(r, env):
+  """a reference that mentions loop variables ($i in the path, ["sv", i, w] slices) for concrete loop values"""
+  if not r.get("sym"):
+    return r
+  path = r["path"]
+  lo = r["lo"]
+  steps = []
+  for st in r["steps"]:
+    if st[0] == "sv":
+      v = env[st[1]]
+      steps.append(["s", v * st[2], v * st[2] + st[2]]); lo += v * st[2]
+    else:
+      steps.append(st)
+  for var, v in env.items():
+    path = path.replace("$" + var, str(v))
+  return {"path": path, "steps": steps, "lo": lo, "w": r["w"]}
+
+
+def subst_expr(e, env):
+  k = e[0]
+  if k == "rd": return ["rd", concretize(e[1], env)]
+  if k == "lv": return ["c", env[e[1]], None]
+  if k in ("c", "fv", "tv"): return e
+  if k in ("bin", "cmp"): return [k, e[1], subst_expr(e[2], env), subst_expr(e[3], env)]
+  if k == "inv": return [k, subst_expr(e[1], env)]
+  if k in ("zext", "sext", "trunc"): return [k, subst_expr(e[1], env), e[2]]
+  if k == "red": return [k, e[1], subst_expr(e[2], env)]
+  if k == "cat": return [k, [subst_expr(x, env) for x in e[1]]]
+  if k == "ite": return [k, subst_expr(e[1], env), subst_expr(e[2], env), subst_expr(e[3], env)]
+  raise KeyError(k)
+
+
+def unroll(stmts, env=None):
+  """statements with every for loop expanded (reference side and read/write sets)"""
+  env = env or {}
+  out = []
+  for st in stmts:
+    if st[0] == "for":
+      _, var, start, stop, step, body = st
+      for v in range(start, stop, step):
+        out += unroll(body, dict(env, **{var: v}))
+    elif st[0] == "=":
+      out.append(["=", concretize(st[1], env), subst_expr(st[2], env)] if env else st)
+    elif st[0] == "tmp":
+      out.append(["tmp", st[1], subst_expr(st[2], env)] if env else st)
+    else:
+      out.append(["if", subst_expr(st[1], env) if env else st[1], unroll(st[2], env), unroll(st[3], env)])
+  return out
 
 
 def bits_ctor(w, v):
@@ -123,7 +199,7 @@ def expr_text(e):
   k = e[0]
   if k == "rd": return ref_text(e[1])
   if k == "c": return str(e[1]) if e[2] is None else bits_ctor(e[2], e[1])
-  if k in ("fv", "tv"): return e[1]
+  if k in ("fv", "tv", "lv"): return e[1]
   if k == "bin": return f"({expr_text(e[2])} {BINOPS[e[1]]} {expr_text(e[3])})"
   if k == "cmp": return f"({expr_text(e[2])} {CMPOPS[e[1]]} {expr_text(e[3])})"
   if k == "inv": return f"(~{expr_text(e[1])})"
@@ -140,7 +216,7 @@ def ev(e, rd, env=None):
   if k == "rd": return rd(e[1])
   if k == "c": return e[1]
   if k == "fv": return e[2]
-  if k == "tv": return env[e[1]]
+  if k in ("tv", "lv"): return env[e[1]]
   if k == "bin":
     a, b = ev(e[2], rd, env), ev(e[3], rd, env)
     w = ewidth(e)
@@ -182,6 +258,8 @@ def ev(e, rd, env=None):
 def type_text(t):
   if isinstance(t, int):
     return f"mk_bits({t})"
+  if t[0] == "list":
+    return f"[{type_text(t[2])}]*{t[1]}"
   return t[1]
 
 
@@ -192,6 +270,10 @@ def emit_stmts(stmts, ind, kind, out, op=None):
       out.append(" " * ind + f"{ref_text(st[1])} {op} {expr_text(st[2])}")
     elif st[0] == "tmp":
       out.append(" " * ind + f"{st[1]} = {expr_text(st[2])}")
+    elif st[0] == "for":
+      rng_txt = f"range({st[3]})" if (st[2] == 0 and st[4] == 1) else f"range({st[2]}, {st[3]}, {st[4]})"
+      out.append(" " * ind + f"for {st[1]} in {rng_txt}:")
+      emit_stmts(st[5], ind + 2, kind, out, op)
     else:
       out.append(" " * ind + f"if {expr_text(st[1])}:")
       emit_stmts(st[2], ind + 2, kind, out, op)
@@ -213,7 +295,7 @@ def emit(design, connect_order=None, connect_style=None, block_order=None):
   """-> python source.  connect_order[cname] = permutation of connect indices; connect_style[cname][i] in 0..3"""
   L = ["from pymtl3 import *", ""]
   for tn, fields in design["types"].items():
-    L += ["@bitstruct", f"class {tn}:"] + [f"  {fn}: mk_bits({w})" for fn, w in fields] + [""]
+    L += ["@bitstruct", f"class {tn}:"] + [f"  {fn}: {type_text(ft)}" for fn, ft in fields] + [""]
   for cn in design["order"]:
     c = design["classes"][cn]
     L += [f"class {cn}(Component):", "  def construct(s):"]
@@ -382,7 +464,10 @@ class Ref:
 
   def exec_stmts(self, host, stmts, bits, sink, env=None):
     ch = False
-    env = {} if env is None else env
+    if env is None:
+      env = {}
+      if any(st[0] == "for" for st in stmts):
+        stmts = unroll(stmts)
     rd = lambda r: self.read_cells(self.ref_cells(host, r), bits)
     for st in stmts:
       if st[0] == "=":
@@ -442,9 +527,24 @@ class Gen:
     d = self.design
     if d["types"] and rng.random() < 0.5:
       return ["struct", rng.choice(sorted(d["types"]))]
-    tn = f"T{len(d['types'])}"
     names = rng.sample(["a", "b", "c", "d", "e"], rng.randrange(2, 5))
-    d["types"][tn] = [[n, rng.choice(SMALLW)] for n in names]
+    fields = []
+    for n in names:
+      r = rng.random()
+      ft = rng.choice(SMALLW)
+      if r < self.k.get("p_nested_field", 0) and d["types"]:
+        ft = ["struct", rng.choice(sorted(d["types"]))]          # an earlier (already emitted) struct type
+      elif r < self.k.get("p_nested_field", 0) + self.k.get("p_list_field", 0):
+        ft = rng.choice([1, 2, 4, 8, 16])
+        for _ in range(rng.choice([1, 1, 2])):
+          ft = ["list", rng.randrange(2, 4), ft]
+      fields.append([n, ft])
+    tn = f"T{len(d['types'])}"
+    d["types"][tn] = fields
+    while twidth(d, ["struct", tn]) > 400:        # keep packed values comfortably below the 1023-bit limit
+      fields.pop()
+      if not fields:
+        fields.append(["a", 8])
     return ["struct", tn]
 
   def sig_type(self):
@@ -464,10 +564,22 @@ class Gen:
     if not isinstance(t, int) and not self.k.get("struct_split", True):
       return [self.root_ref(path, t)]
     if not isinstance(t, int):
+      # partition into sub-objects: a top-level field as a whole (Bits or nested struct), or - for list fields and with some
+      # probability for nested structs - its Bits leaves
       out = []
-      for fn, fw in self.design["types"][t[1]]:
-        lo, _ = field_range(self.design, t, fn)
-        out.append({"path": path, "steps": [["f", fn]], "lo": lo, "w": fw})
+      subs = subobjects(self.design, t)
+      def leaves_under(prefix):
+        return [(st, lo, ft) for st, lo, ft in subs if st[:len(prefix)] == prefix and isinstance(ft, int)]
+      for fn, ft in self.design["types"][t[1]]:
+        st0 = [["f", fn]]
+        lo0 = next(lo for st, lo, _ in subs if st == st0)
+        if isinstance(ft, int):
+          out.append({"path": path, "steps": st0, "lo": lo0, "w": ft})
+        elif ft[0] == "struct" and rng.random() < 0.5:
+          out.append({"path": path, "steps": st0, "lo": lo0, "w": twidth(self.design, ft), "pt": ft})   # nested struct as a whole
+        else:
+          for st, lo, lw in leaves_under(st0):
+            out.append({"path": path, "steps": st, "lo": lo, "w": lw})
       return out
     if w < 2:
       return [self.root_ref(path, t)]
@@ -484,13 +596,15 @@ class Gen:
     w = twidth(self.design, t)
     cands = []
     if not isinstance(t, int):
-      for fn, fw in self.design["types"][t[1]]:
-        lo, _ = field_range(self.design, t, fn)
-        cands.append({"path": path, "steps": [["f", fn]], "lo": lo, "w": fw})
+      for st, lo, ft in subobjects(self.design, t):
+        if not isinstance(ft, int):
+          continue                      # only Bits-valued sub-objects are read in expressions
+        fw = ft
+        cands.append({"path": path, "steps": st, "lo": lo, "w": fw})
         if fw > 1:
           a = rng.randrange(fw); b = rng.randrange(a + 1, fw + 1)
           if want is not None and want <= fw: a = rng.randrange(fw - want + 1); b = a + want
-          cands.append({"path": path, "steps": [["f", fn], ["s", a, b]], "lo": lo + a, "w": b - a})
+          cands.append({"path": path, "steps": st + [["s", a, b]], "lo": lo + a, "w": b - a})
     else:
       cands.append(self.root_ref(path, t))
       if w > 1:
@@ -672,6 +786,10 @@ class Gen:
         if sg["name"] in reg_names:
           ff_targets.append((self.root_ref(sg["name"], sg["type"]), sg["type"]))
           continue
+        if sg["list"] and isinstance(sg["type"], int) and rng.random() < k.get("p_for", 0):
+          comb_targets.append((rank, {"forblock": self.for_block(sg, avail + regs)}, []))
+          avail = avail + roots(sg)
+          continue
         for (path, t) in roots(sg):
           parts = self.parts_of(path, t, rng.randrange(2, 4)) if rng.random() < k["p_split"] else [self.root_ref(path, t)]
           for p in parts:
@@ -697,7 +815,7 @@ class Gen:
     cur = []
     cmin = None
     for (rk, p, srcs) in comb_targets:
-      new = not cur or rng.random() < 0.45
+      new = not cur or rng.random() < 0.45 or "forblock" in p or (cur and "forblock" in cur[-1][0])
       # a chunk must not span an instance (its inputs sit at rank-0.5, its outputs are read above rank) nor a
       # connect-driven part (its net block sits between the writers below and the readers above its rank)
       if cur and (any(cmin < b <= rk for b in breaks) or any(cmin < c < rk for c in self.connect_ranks)):
@@ -719,6 +837,10 @@ class Gen:
       stmts = []
       ntmp = 0
       for (p, srcs) in tg:
+        if "forblock" in p:
+          fb = p["forblock"]
+          stmts += fb[1] if fb[0] == "seq" else [fb]
+          continue
         if srcs and rng.random() < k.get("p_tmp", 0):
           # block-local temporary: t = <explicit expr>; target @= f(t)
           tw = rng.choice(SMALLW + [p["w"]])
@@ -776,9 +898,60 @@ class Gen:
     self.by_depth.setdefault(depth, []).append(cname)
     return cname
 
+  def for_block(self, sg, srcs):
+    """for i in range(...): s.lst[i] @= f(i)  - list-element / loop-variable-slice reads, loop variable as operand"""
+    rng = self.rng
+    n, w = sg["list"], sg["type"]
+    var = "i"
+    shape = rng.randrange(4) if self.k.get("for_desc", True) else 0
+    if shape == 0: start, stop, step = 0, n, 1
+    elif shape == 1: start, stop, step = n - 1, 0, -1                  # descending (the translator wants a non-negative end:
+    elif shape == 2: start, stop, step = 0, n, 1                       #  element 0 is assigned by a separate statement)
+    else: start, stop, step = n - 1, 0, -1
+    tgt = {"path": f"{sg['name']}[${var}]", "steps": [], "lo": 0, "w": w, "sym": True}
+    # element-wise source: another list of the same length (element width wl), or i-th w-bit slice of a wide signal
+    lists = {}
+    for path, t in srcs:
+      if "[" in path and isinstance(t, int):
+        base = path.split("[")[0]
+        lists.setdefault((base, t), 0); lists[(base, t)] += 1
+    cands = []
+    for (base, wl), cnt in lists.items():
+      if cnt >= n and "." not in base or cnt >= n:
+        cands.append(("list", base, wl))
+    for path, t in srcs:
+      if isinstance(t, int) and "[" not in path and t >= n * w:
+        cands.append(("wide", path, t))
+    def adapt(e, we):
+      if we == w: return e
+      return [rng.choice(["zext", "sext"]), e, w] if we < w else ["trunc", e, w]
+    if cands:
+      kind, base, wl = rng.choice(cands)
+      if kind == "list":
+        core = adapt(["rd", {"path": f"{base}[${var}]", "steps": [], "lo": 0, "w": wl, "sym": True}], wl)
+      else:
+        core = ["rd", {"path": base, "steps": [["sv", var, w]], "lo": 0, "w": w, "sym": True}]
+    else:
+      core = self._explicit(w, list(srcs), 1)
+    fits = (n - 1) <= mask(w)
+    r = rng.random()
+    if fits and r < 0.3: e = ["bin", rng.choice(["add", "sub", "xor"]), core, ["lv", var]]
+    elif fits and r < 0.55: e = ["bin", rng.choice(["shl", "shr"]), core, ["lv", var]]           # loop variable as shift amount
+    elif fits and r < 0.7: e = ["ite", ["cmp", rng.choice(["lt", "ge", "eq"]), self._explicit(w, list(srcs), 1), ["lv", var]], core, self._explicit(w, list(srcs), 1)]
+    else: e = core
+    loop = ["for", var, start, stop, step, [["=", tgt, e]]]
+    if step < 0:
+      return ["if", ["c", 1, 1], [["=", concretize(tgt, {var: 0}), subst_expr(e, {var: 0})], loop], []] if False else \
+             ["seq", [["=", concretize(tgt, {var: 0}), subst_expr(e, {var: 0})], loop]]
+    return loop
+
   def drive(self, cls, p, srcs, comb_targets, rank, whole, t, child):
     """choose a driver for target part p"""
     rng, k = self.rng, self.k
+    if "pt" in p:
+      # a nested-struct-typed field can only be connected to a signal of that very type: drive it from a block
+      p = {kk: v for kk, v in p.items() if kk != "pt"}
+      comb_targets.append((rank, p, list(srcs))); return
     if rng.random() < k["p_connect"] + (0.2 if child else 0):
       # connect: need an equal-width (and, for whole structs, equal-type) source
       cands = list(srcs)
